@@ -52,6 +52,36 @@ def TerminatingT : TMembers → Prop
   | .cons _ t _ rest => Terminating t ∧ TerminatingT rest
 end
 
+/- the counted arrays `el[k]` inside a type whose elements are actually decoded (nothing below a
+    zero-length array is) -/
+mutual
+def countedIn : Ty → List (IntK × Ty)
+  | .arr .all t => countedIn t
+  | .arr (.pref k) t => (k, t) :: countedIn t
+  | .arr (.fixed 0) _ => []
+  | .arr (.fixed (_ + 1)) t => countedIn t
+  | .struct ms => countedInMembers ms
+  | .structTag ms _ _ _ => countedInT ms
+  | _ => []
+def countedInMembers : Members → List (IntK × Ty)
+  | .nil => []
+  | .cons _ t rest => countedIn t ++ countedInMembers rest
+def countedInT : TMembers → List (IntK × Ty)
+  | .nil => []
+  | .cons _ t _ rest => countedIn t ++ countedInT rest
+end
+
+/-- the one situation the model reports as resource exhaustion (the other origin of `Exn.hang`, in the
+    counted-array case of `decode`): the count read from `bs` exceeds the bytes left after it by more than
+    65536, and nevertheless `left + 1` elements decode from those bytes — so elements come from no bytes
+    at all and the real loop would go on to allocate `n` values -/
+def HugeCount (k : IntK) (el : Ty) (bs : Bytes) : Prop :=
+  ∃ n r0, decodeIntNat k bs = .ok (n, r0) ∧ r0.length + 65536 < n ∧
+    ∃ x, decodeN (decode el) (r0.length + 1) r0 = .ok x
+
+/-- every counted array inside the type has elements that consume bytes; unbounded arrays are NOT restricted -/
+def CountedPos (t : Ty) : Prop := ∀ p ∈ countedIn t, PosWidth p.2
+
 open ER
 
 /-- whatever the value, a failing encode is a DataError (no other exception class exists in the outcome) -/
@@ -141,45 +171,104 @@ theorem decode_progress (t : Ty) (hw : PosWidth t) (bs : Bytes) (v : PyVal) (r :
 
 namespace ER
 
-theorem noHang_all : (∀ t, Terminating t → ErrIn (· ≠ .hang) (decode t)) ∧
-    (∀ ms, TerminatingMembers ms → ∀ acc, ErrIn (· ≠ .hang) (fun bs => decodeMembers ms bs acc)) ∧
-    (∀ ms, TerminatingT ms → ∀ raw pos acc e, decodeTMembers ms raw pos acc = .error e → e ≠ .hang) := by
+/-- some counted array inside the type met a huge count -/
+def Cause (L : List (IntK × Ty)) : Prop := ∃ k el bs', (k, el) ∈ L ∧ HugeCount k el bs'
+
+theorem Cause.mono {L L' : List (IntK × Ty)} (h : ∀ p ∈ L, p ∈ L') (c : Cause L) : Cause L' := by
+  obtain ⟨k, el, bs', hm, hc⟩ := c
+  exact ⟨k, el, bs', h _ hm, hc⟩
+
+theorem hangCause_all :
+    (∀ t, ErrIn (fun e => e = .hang → Cause (countedIn t)) (decode t)) ∧
+    (∀ ms acc, ErrIn (fun e => e = .hang → Cause (countedInMembers ms)) (fun bs => decodeMembers ms bs acc)) ∧
+    (∀ ms raw pos acc e, decodeTMembers ms raw pos acc = .error e → e = .hang → Cause (countedInT ms)) := by
   refine Ty.induct3 ?_ ?_ ?_ ?_ ?_ ?_ ?_ ?_
-  · intro t h _; exact (nonrec_err t h).mono c2_ne_hang
-  · intro len t ih ht
+  · intro t h
+    exact (nonrec_err t h).mono fun e he hh => absurd hh (c2_ne_hang e he)
+  · intro len t ih
     rw [decode_arr_eq]
+    have key : (∀ p ∈ countedIn t, p ∈ countedIn (.arr len t)) →
+        ErrIn (fun e => e = .hang → Cause (countedIn (.arr len t))) (arrDec (decode t) (post t) len) := by
+      intro hsub bs e h he
+      rcases arr_err_cases (suf_all.1 t) (ih.mono fun e c he => (c he).mono hsub)
+        (fun e hc he => absurd he (c2_ne_hang e hc)) len bs e h with h | ⟨_, k, rfl, hk⟩
+      · exact h he
+      · exact ⟨k, t, bs, by simp [countedIn], hk⟩
     cases len with
-    | all =>
-      simp only [Terminating] at ht
-      exact arr_noHang_loop (suf_all.1 t) (prog_all.1 t ht.1) (ih ht.2) _
-    | pref k =>
-      simp only [Terminating] at ht
-      exact arr_noHang_loop (suf_all.1 t) (prog_all.1 t ht.1) (ih ht.2) _
+    | all => exact key (by simp [countedIn])
+    | pref k => exact key (by intro p hp; simp [countedIn, hp])
     | fixed n =>
       cases n with
       | zero => exact arr_errIn_zero
+      | succ n => exact key (by simp [countedIn])
+  · intro ms ih
+    rw [decode_struct_eq]
+    simp only [countedIn]
+    exact (ih []).bind fun _ => ErrIn.ret
+  · intro ms bits priv size ih
+    rw [decode_tag_eq]
+    simp only [countedIn]
+    exact tag_errIn (fun raw e h => ih raw 0 [] e h) (fun e hc he => absurd he (c2_ne_hang e hc)) size
+  · intro acc; rw [members_nil]; exact ErrIn.ret
+  · intro name t rest iht ihr acc
+    rw [members_cons]
+    simp only [countedInMembers]
+    exact (iht.mono fun e c he => (c he).mono fun p hp => List.mem_append_left _ hp).bind fun v =>
+      (ihr _).mono fun e c he => (c he).mono fun p hp => List.mem_append_right _ hp
+  · intro raw pos acc e h; rw [decodeTMembers] at h; cases h
+  · intro name t off rest iht ihr raw pos acc e h he
+    simp only [countedInT]
+    rcases tmembers_cons_err _ _ _ _ _ _ _ _ h with ⟨bs, hb⟩ | ⟨p, a, hr⟩
+    · exact (iht _ _ hb he).mono fun p hp => List.mem_append_left _ hp
+    · exact (ihr _ _ _ _ hr he).mono fun p hp => List.mem_append_right _ hp
+
+theorem countedPos_all : (∀ t, Terminating t → ∀ p ∈ countedIn t, PosWidth p.2) ∧
+    (∀ ms, TerminatingMembers ms → ∀ p ∈ countedInMembers ms, PosWidth p.2) ∧
+    (∀ ms, TerminatingT ms → ∀ p ∈ countedInT ms, PosWidth p.2) := by
+  refine Ty.induct3 ?_ ?_ ?_ ?_ ?_ ?_ ?_ ?_
+  · intro t h _ p hp
+    cases t <;> simp only [NonRec] at h <;> simp [countedIn] at hp
+  · intro len t ih ht p hp
+    cases len with
+    | all =>
+      simp only [Terminating] at ht
+      simp only [countedIn] at hp
+      exact ih ht.2 p hp
+    | pref k =>
+      simp only [Terminating] at ht
+      simp only [countedIn, List.mem_cons] at hp
+      rcases hp with rfl | hp
+      · exact ht.1
+      · exact ih ht.2 p hp
+    | fixed n =>
+      cases n with
+      | zero => simp [countedIn] at hp
       | succ n =>
         simp only [Terminating] at ht
-        exact arr_noHang_fixed (ih ht) _
-  · intro ms ih ht
-    rw [decode_struct_eq]
+        simp only [countedIn] at hp
+        exact ih ht p hp
+  · intro ms ih ht p hp
     simp only [Terminating] at ht
-    exact (ih ht []).bind fun _ => ErrIn.ret
-  · intro ms bits priv size ih ht
-    rw [decode_tag_eq]
+    simp only [countedIn] at hp
+    exact ih ht p hp
+  · intro ms bits priv size ih ht p hp
     simp only [Terminating] at ht
-    exact tag_errIn (fun raw e h => ih ht raw 0 [] e h) c2_ne_hang size
-  · intro _ acc; rw [members_nil]; exact ErrIn.ret
-  · intro name t rest iht ihr ht acc
-    rw [members_cons]
+    simp only [countedIn] at hp
+    exact ih ht p hp
+  · intro _ p hp; simp [countedInMembers] at hp
+  · intro name t rest iht ihr ht p hp
     simp only [TerminatingMembers] at ht
-    exact (iht ht.1).bind fun v => ihr ht.2 _
-  · intro _ raw pos acc e h; rw [decodeTMembers] at h; cases h
-  · intro name t off rest iht ihr ht raw pos acc e h
+    simp only [countedInMembers, List.mem_append] at hp
+    rcases hp with hp | hp
+    · exact iht ht.1 p hp
+    · exact ihr ht.2 p hp
+  · intro _ p hp; simp [countedInT] at hp
+  · intro name t off rest iht ihr ht p hp
     simp only [TerminatingT] at ht
-    rcases tmembers_cons_err _ _ _ _ _ _ _ _ h with ⟨bs, hb⟩ | ⟨p, a, hr⟩
-    · exact iht ht.1 _ _ hb
-    · exact ihr ht.2 _ _ _ _ hr
+    simp only [countedInT, List.mem_append] at hp
+    rcases hp with hp | hp
+    · exact iht ht.1 p hp
+    · exact ihr ht.2 p hp
 
 theorem fixed_all : (∀ t w, fixedWidth t = some w → Fixed (decode t) w) ∧
     (∀ ms w, fixedWidthMembers ms = some w → ∀ acc, Fixed (fun bs => decodeMembers ms bs acc) w) ∧
@@ -254,9 +343,89 @@ theorem stab_all : (∀ t, TailSafe t → Stab (decode t)) ∧
 
 end ER
 
+/-- `Array._decode_all` never runs out of fuel: whatever the element decoder `f` does — as long as it does
+    not hand back more bytes than it was given and does not itself report `hang` — a loop started with
+    more fuel than bytes ends by itself.  Every round that continues has shortened the buffer, and an
+    element decoded without consuming anything ends the loop with DataError. -/
+theorem decode_all_never_hangs (f : Bytes → R (PyVal × Bytes)) (fuel : Nat) (bs : Bytes)
+    (hfuel : bs.length < fuel) (hle : ∀ bs v r, f bs = .ok (v, r) → r.length ≤ bs.length)
+    (hf : ∀ bs, f bs ≠ .error .hang) : decodeAll f fuel bs ≠ .error .hang :=
+  ER.decodeAll_noHang hle (fun bs _ h he => hf bs (he ▸ h)) fuel bs hfuel
+
+/-- an element that is decoded without the stream position moving makes the unbounded loop raise
+    DataError (this used to be the endless loop) -/
+theorem decode_all_stalled_is_data (f : Bytes → R (PyVal × Bytes)) (fuel : Nat) (bs : Bytes) (v : PyVal)
+    (r : Bytes) (h : f bs = .ok (v, r)) (hr : r.length = bs.length) :
+    decodeAll f (fuel + 1) bs = .error .data := by
+  rw [decodeAll]; simp only [h, hr, if_true]
+
+/-- an unbounded array adds no way of not terminating: if the element type never reports `hang`,
+    neither does `T[...]` — also when `T` decodes from zero bytes -/
+theorem decode_unbounded_no_hang (t : Ty) (ht : ∀ bs, decode t bs ≠ .error .hang) (bs : Bytes) :
+    decode (.arr .all t) bs ≠ .error .hang := by
+  intro h
+  rw [ER.decode_arr_eq] at h
+  rcases ER.arr_err_cases (Q := (· ≠ .hang)) (ER.suf_all.1 t) (fun bs e h he => ht bs (he ▸ h)) ER.c2_ne_hang
+    .all bs _ h with h | ⟨_, k, hk, _⟩
+  · exact h rfl
+  · cases hk
+
+/-- NO hypothesis on the type: whenever decode reports `hang`, some counted array `el[k]` inside the type
+    met a huge count (`HugeCount`: the count exceeds the bytes left by more than 65536 although that many
+    + 1 elements decode).  The unbounded-array loop is never the reason. -/
+theorem decode_hang_cause (t : Ty) (bs : Bytes) (h : decode t bs = .error .hang) :
+    ∃ k el bs', (k, el) ∈ countedIn t ∧ HugeCount k el bs' :=
+  ER.hangCause_all.1 t bs _ h rfl
+
+/-- the condition is exact: a counted array whose element type never reports `hang` reports it iff the
+    count is huge; and a huge count is always reported so -/
+theorem decode_counted_hang_iff (k : IntK) (el : Ty) (hel : ∀ bs, decode el bs ≠ .error .hang) (bs : Bytes) :
+    decode (.arr (.pref k) el) bs = .error .hang ↔ HugeCount k el bs := by
+  rw [ER.decode_arr_eq]
+  constructor
+  · intro h
+    rcases ER.arr_err_cases (Q := (· ≠ .hang)) (ER.suf_all.1 el) (fun bs e h he => hel bs (he ▸ h))
+      ER.c2_ne_hang (.pref k) bs _ h with h | ⟨_, k', hk, hh⟩
+    · exact absurd rfl h
+    · cases hk; exact hh
+  · exact ER.huge_hang k bs
+
+theorem huge_count_hangs (k : IntK) (el : Ty) (bs : Bytes) (h : HugeCount k el bs) :
+    decode (.arr (.pref k) el) bs = .error .hang := by
+  rw [ER.decode_arr_eq]; exact ER.huge_hang k bs h
+
+/-- elements that consume bytes never meet a huge count -/
+theorem posWidth_not_huge (k : IntK) (el : Ty) (hw : PosWidth el) (bs : Bytes) : ¬ HugeCount k el bs := by
+  rintro ⟨n, r0, _, _, ⟨vs, r⟩, hx⟩
+  have := ER.decodeN_count (ER.suf_all.1 el) (ER.prog_all.1 el hw) _ _ _ _ hx
+  omega
+
+/-- termination with the weakest syntactic hypothesis: only counted arrays need elements that consume
+    bytes.  Unbounded arrays of zero-width elements (`Struct()[...]`, `X[0][...]`) are covered. -/
+theorem decode_no_hang_counted (t : Ty) (ht : CountedPos t) (bs : Bytes) : decode t bs ≠ .error .hang := by
+  intro h
+  obtain ⟨k, el, bs', hm, hc⟩ := decode_hang_cause t bs h
+  exact posWidth_not_huge k el (ht _ hm) bs' hc
+
+theorem terminating_countedPos (t : Ty) (ht : Terminating t) : CountedPos t :=
+  ER.countedPos_all.1 t ht
+
 /-- termination: the fuel of the unbounded-array loop is never the reason to stop -/
 theorem decode_no_hang (t : Ty) (ht : Terminating t) (bs : Bytes) : decode t bs ≠ .error .hang :=
-  fun h => ER.noHang_all.1 t ht bs _ h rfl
+  decode_no_hang_counted t (terminating_countedPos t ht) bs
+
+/-! the former counterexample of `decode_no_hang` without `Terminating`: zero-width elements in an
+    unbounded array -/
+example : decode (.arr .all (.struct .nil)) [1, 2, 3] = .error .data := by rfl
+example : decode (.arr .all (.arr (.fixed 0) .bool)) [] = .error .data := by rfl
+example : decode (.arr .all (.arr .all (.struct .nil))) [7] = .error .data := by rfl
+example : ¬ Terminating (.arr .all (.struct .nil)) := by simp [Terminating, PosWidth, PosWidthMembers]
+example : CountedPos (.arr .all (.struct .nil)) := by simp [CountedPos, countedIn, countedInMembers]
+/-! the remaining origin of `hang`, and that `CountedPos` excludes exactly this shape -/
+example : decode (.arr (.pref .udint) (.struct .nil)) [0, 0, 2, 0] = .error .hang := by rfl
+example : HugeCount .udint (.struct .nil) [0, 0, 2, 0] := ⟨131072, [], by rfl, by decide, _, by rfl⟩
+example : ¬ CountedPos (.arr (.pref .udint) (.struct .nil)) := by
+  simp [CountedPos, countedIn, countedInMembers, PosWidth, PosWidthMembers]
 
 /-- no fixed-width value is produced from fewer bytes than its width, and exactly the width is consumed -/
 theorem fixed_width_needs_width (t : Ty) (w : Nat) (hw : fixedWidth t = some w) (bs : Bytes) (v : PyVal) (r : Bytes)
